@@ -426,8 +426,11 @@ pub trait QueryBuilder:
                             Some(Token::Unquoted(tok)) if numbered => {
                                 if let Ok(num) = tok.parse::<usize>() {
                                     self.prepare_simple_expr(&values[num - 1], sql);
+                                    tokenizer.next();
+                                } else {
+                                    // not a numbered placeholder (e.g. `$tag$`): keep the text as it is
+                                    write!(sql, "{mark}").unwrap();
                                 }
-                                tokenizer.next();
                             }
                             _ => {
                                 self.prepare_simple_expr(&values[count], sql);
